@@ -800,3 +800,114 @@ impl Session {
         }
     }
 }
+
+/// Verification harness only: drive the manager one command at a time and look at its state.
+#[cfg(feature = "verif")]
+#[allow(missing_docs)]
+impl Session {
+    /// Register a peer as `spawn_peer_handler` / `spawn_peer_listener` do, with a finished job.
+    pub fn verif_add_peer(&mut self, addr: &str, id: Option<[u8; PEER_ID_SIZE]>) {
+        let job = tokio::spawn(async {});
+        let peer = Peer::new(id, self.metainfo.pieces_num(), job);
+        self.peers.insert(addr.to_string(), peer);
+    }
+
+    pub async fn verif_handle(&mut self, cmd: PeerCmd) -> Result<bool, Error> {
+        self.handle_peer_cmd(cmd).await
+    }
+
+    /// Receive one command from the real peer channel and handle it.
+    pub async fn verif_pump_peer(&mut self) -> Option<Result<bool, Error>> {
+        match self.general_channels.rx.recv().await {
+            Some(cmd) => Some(self.handle_peer_cmd(cmd).await),
+            None => None,
+        }
+    }
+
+    pub fn verif_peer_tx(&self) -> mpsc::Sender<PeerCmd> {
+        self.general_channels.tx.clone()
+    }
+
+    pub fn verif_subscribe(&self) -> broadcast::Receiver<BroadCmd> {
+        self.general_channels.broad.subscribe()
+    }
+
+    pub fn verif_statuses(&self) -> Vec<Status> {
+        self.pieces_status.clone()
+    }
+
+    pub fn verif_set_statuses(&mut self, statuses: Vec<Status>) {
+        self.pieces_status = statuses;
+    }
+
+    pub fn verif_peer_addrs(&self) -> Vec<String> {
+        self.peers.keys().cloned().collect()
+    }
+
+    pub fn verif_peer(&self, addr: &str) -> Option<&Peer> {
+        self.peers.get(addr)
+    }
+
+    pub fn verif_peer_mut(&mut self, addr: &str) -> Option<&mut Peer> {
+        self.peers.get_mut(addr)
+    }
+
+    pub async fn verif_choose(&mut self, addr: &str) -> Option<usize> {
+        self.choose_piece_index(&addr.to_string()).await
+    }
+
+    pub fn verif_unchoked_num(&self) -> usize {
+        self.unchoked_num()
+    }
+
+    /// `change_conn_state` with the given rates and optimistic picks; returns the broadcast map.
+    pub fn verif_rotate(
+        &mut self,
+        rates: &mut Vec<(String, u32)>,
+        new_optimistic: &Vec<String>,
+    ) -> Option<HashMap<String, bool>> {
+        match self.change_conn_state(rates, new_optimistic) {
+            Ok(BroadCmd::SendOwnState { am_choked_map }) => Some(am_choked_map),
+            _ => None,
+        }
+    }
+
+    pub async fn verif_tick_rotate(&mut self) -> bool {
+        self.timeout_change_conn_state().await.is_ok()
+    }
+
+    pub fn verif_round(&self) -> usize {
+        self.round
+    }
+
+    pub fn verif_tracker_tx(&self) -> mpsc::Sender<TrackerCmd> {
+        self.tracker.tx_ch.clone()
+    }
+
+    pub fn verif_set_tracker_job(&mut self, job: JoinHandle<()>) {
+        self.tracker.job = Some(job);
+    }
+
+    pub fn verif_spawn_tracker(&mut self) {
+        self.spawn_tracker();
+    }
+
+    /// Receive one tracker command from the real channel and handle it (as the event loop does).
+    pub async fn verif_pump_tracker(&mut self) -> bool {
+        match self.tracker.rx_ch.recv().await {
+            Some(cmd) => {
+                self.handle_tracker_cmd(cmd).await;
+                true
+            }
+            None => false,
+        }
+    }
+
+    pub fn verif_candidates(&self) -> Vec<(String, [u8; PEER_ID_SIZE])> {
+        self.candidates.clone()
+    }
+
+    pub fn verif_files_extracted(&self) -> bool {
+        self.files_extracted
+    }
+}
